@@ -303,7 +303,8 @@ Record ss_opts := {
   ss_func : ssfunc; ss_field : field; ss_out : field;
   ss_current : bool; ss_by : list field;
   ss_window : N;            (* 0 = no window *)
-  ss_global : bool }.
+  ss_global : bool;
+  ss_reset_on_change : bool }.
 
 (* RunningStreamStatsResults of one bucket: Window (Index, Value), CurrResult, NumProcessedRecords *)
 Record ss_res := { w_elems : list (Z * Z); w_curr : Z; w_nproc : N }.
@@ -378,24 +379,37 @@ Definition ss_window_row (o : ss_opts) (gidx : Z) (x : ss_res) (v : value) : ss_
      if ss_current o then default else before)
   end.
 
-(* state: p.currentIndex and RunningStreamStats[0] (bucket key -> results) *)
-Definition ss_state := (Z * ss_buckets)%type.
+(* state: p.currentIndex, p.currentBucketKey ("" = None) and RunningStreamStats[0]
+   (bucket key -> results) *)
+Definition ss_state := (Z * option tuple * ss_buckets)%type.
+Definition optkey_eqb (a b : option tuple) : bool :=
+  match a, b with
+  | None, None => true
+  | Some x, Some y => tuple_eqb x y
+  | _, _ => false
+  end.
 Definition ss_row (o : ss_opts) (s : ss_state) (r : row) : ss_state * list row :=
-  let '(gidx, m) := s in
+  let '(gidx, ck, m) := s in
   let k := proj (ss_by o) r in
-  let x := ss_get m k in
+  (* bucketKey stays "" without a by-clause *)
+  let bk := match ss_by o with [] => None | _ => Some k end in
+  (* ResetOnChange && currentBucketKey != bucketKey: resetAccumulatedStreamStats, currentIndex = 0 *)
+  let '(gidx0, m0) := if ss_reset_on_change o && negb (optkey_eqb ck bk)
+                      then (0%Z, @nil (tuple * ss_res)) else (gidx, m) in
+  let x := ss_get m0 k in
   let '(x', res) := if ss_window o =? 0 then ss_nowindow_row o x (get r (ss_field o))
-                    else ss_window_row o gidx x (get r (ss_field o)) in
-  ((gidx + 1)%Z, ss_put m k x', [set_field r (ss_out o) res]).
+                    else ss_window_row o gidx0 x (get r (ss_field o)) in
+  ((gidx0 + 1)%Z, bk, ss_put m0 k x', [set_field r (ss_out o) res]).
 
-(* streamstatscommand.go Process: `p.currentIndex = 0` at the start of EVERY call,
-   i.e. of every batch (line 112), while the window elements keep the indices of
-   the batches before.  [reset_per_batch = true] is the code; false is the
-   command with the index running over the whole stream. *)
+(* streamstatscommand.go Process: `p.currentBucketKey = ""` and `p.currentIndex = 0`
+   at the start of EVERY call, i.e. of every batch (lines 110-112), while the window
+   elements keep the indices of the batches before and the statistics survive.
+   [reset_per_batch = true] is the code; false is the command with index and
+   previous key running over the whole stream. *)
 Definition streamstats_cmd (reset_per_batch : bool) (o : ss_opts) : command :=
-  mkCmd ss_state (0%Z, [])
+  mkCmd ss_state (0%Z, None, [])
     (fun s b =>
-       let s0 := if reset_per_batch then (0%Z, snd s) else s in
+       let s0 := if reset_per_batch then (0%Z, None, snd s) else s in
        let '(s', out) := rows_fold (ss_row o) s0 b in (s', out, false))
     (fun _ => []).
 
